@@ -37,6 +37,10 @@ def check(run):
         run.guard("C18.5.invocation", cfg, lambda: rule_invocation(run, F, cfg))
         b = run.borrow("C16", only=r"inject_script", why="scriptlet exceptions are applied after all injections are collected")
         run.guard("C18.via.C16.3.populate-before-prune", cfg, lambda: _C16.rule_order(b, F, cfg))
+        run.guard("C18.via.C16.8.independent-injections", cfg, lambda: _C16.rule_independent_injections(run.borrow("C16", why="a scriptlet another list may not use must not suppress the others"), F, cfg))
+        from . import C08 as _C08
+        b8 = run.borrow("C08", only=r"stores-unconditional|restores-unconditional|accumulating", why="the blanket scriptlet exception must survive serialization")
+        run.guard("C18.via.C08.3.legacy-bijection", cfg, lambda: _C08.rule_legacy(b8, F, cfg))
 
 
 # ------------------------------------------------------------------ tiny expression evaluator
